@@ -524,6 +524,15 @@ func (t *Table) EdgeCond(p, b *ssa.BasicBlock) (TT, bool) {
 // InstrCond is the condition under which instruction in executes.
 func (t *Table) InstrCond(in ssa.Instruction) (TT, bool) { return t.BlockCond(in.Block()) }
 
+// N is the number of atoms; AtomValue is the SSA value of atom i (nil for synthetic atoms).
+func (t *Table) N() int { return t.n }
+func (t *Table) AtomValue(i int) ssa.Value {
+	if i < len(t.atomV) {
+		return t.atomV[i]
+	}
+	return nil
+}
+
 // True / False constants of the table's width.
 func (t *Table) True() TT  { return newTT(t.n, true) }
 func (t *Table) False() TT { return newTT(t.n, false) }
